@@ -48,6 +48,38 @@ BIND_WITH_DTOR = {"sqlite3_bind_text16": (2, 4), "sqlite3_bind_text": (2, 4), "s
 SHALLOW_COPY = {"memcpy": 1}
 
 
+def auto_release(prog):
+    """Helpers of the library itself that release a pointer parameter on every path (`static void free_names(a, end) { ...
+    free(a); }`): callee -> (argument index, deep).  A helper that also releases what hangs off the parameter (it frees
+    elements reached through it) counts as deep."""
+    cache = getattr(prog, "_auto_release", None)
+    if cache is not None:
+        return cache
+    from . import cfgq
+    out = {}
+    for fn in prog.all_functions():
+        if fn.name in RELEASE or fn.name in ALLOC_OUT:
+            continue
+        for idx, prm in enumerate(fn.params):
+            if "*" not in (prm.get("t") or ""):
+                continue
+            sites = []
+            deep = False
+            for (b, i, r, c) in fn.calls():
+                cal = c.get("callee")
+                if cal in RELEASE and c.get("args") and len(c["args"]) > RELEASE[cal][0]:
+                    ap = path(strip(c["args"][RELEASE[cal][0]]))
+                    if ap == prm["name"]:
+                        sites.append((b.id, i))
+                    elif ap and prm["name"] in re.findall(r"[A-Za-z_]\w*", ap):
+                        deep = True
+            if sites and cfgq.must_follow(fn, (fn.entry, -1), sites):
+                out[fn.name] = (idx, deep)
+                break
+    prog._auto_release = out
+    return out
+
+
 def _root(p):
     m = re.match(r"^[\(\*&]*([A-Za-z_]\w*)", p or "")
     return m.group(1) if m else None
@@ -62,6 +94,8 @@ class OwnInterp(Interp):
         self.params = {p["name"] for p in fn.params}
         self.cap = 6000
         self.max_steps = 400000
+        self.release = dict(RELEASE)
+        self.release.update(auto_release(prog))
         # keep the state space small: status variables are pointers, result codes and flags of this function
         keep = {p["name"] for p in fn.params} | {l["name"] for l in fn.locals}
         self.tracked = {p for p in self.tracked if _root(p) in keep and not p.startswith("scanner->")}
@@ -106,8 +140,8 @@ class OwnInterp(Interp):
         c = n.get("callee")
         args = n.get("args", [])
         al, stt = self._unpack(st.ts)
-        if c in RELEASE and len(args) > RELEASE[c][0]:
-            idx, deep = RELEASE[c]
+        if c in self.release and len(args) > self.release[c][0]:
+            idx, deep = self.release[c]
             p = path(strip(args[idx]))
             rid = al.get(p) if p else None
             if rid is not None:
@@ -200,7 +234,7 @@ class OwnInterp(Interp):
         for a in args:
             p = path(strip(a))
             rid = al.get(p) if p else None
-            if rid is not None and stt.get(rid) == "released" and c not in RELEASE:
+            if rid is not None and stt.get(rid) == "released" and c not in self.release:
                 self.reports.append(("use-after-release", self.acq_nodes.get(rid), n, st, "`%s` is passed to %s after it was released" % (p, c)))
         return [(st, None)]
 
